@@ -33,6 +33,7 @@ type c15Case struct {
 	Kinds      string `json:"kinds"`
 	DstHistory bool   `json:"dst_with_history,omitempty"`
 	DstMutex   bool   `json:"dst_mutex,omitempty"`
+	DstFifo    bool   `json:"dst_fifo,omitempty"`
 }
 
 func c15Decode(idx int) c15Case {
@@ -237,6 +238,13 @@ func c15Run(c *core.Ctx, idx int) {
 			src.Push(nil)
 		} else if k.Form == "nonest-dst" && i == k.SrcLen/2 {
 			src.Push(stackage.And().Push(next()))
+		} else if r.Chance(1, 10) {
+			// an element that is itself a []any: ONE element, here as there
+			sl := []any{next()}
+			if r.Bool() {
+				sl = append(sl, next(), next())
+			}
+			src.Push(any(sl))
 		} else {
 			src.Push(next())
 		}
@@ -261,6 +269,10 @@ func c15Run(c *core.Ctx, idx int) {
 	if r.Chance(1, 3) {
 		dst.SetMutex() // a refused or completed transfer must leave the destination's lock released
 		k.DstMutex = true
+	}
+	if r.Chance(1, 3) {
+		dst.SetFIFO(true) // the destination's ordering mode is about its Pop, not about what a refused Transfer leaves
+		k.DstFifo = true
 	}
 	var arg any
 	inert := false // destination that must refuse
